@@ -15,6 +15,7 @@ use tough::sign::Sign;
 mod history;
 mod misc;
 mod targets;
+mod httpx;
 
 pub fn kp() -> Ed25519KeyPair {
     let doc = Ed25519KeyPair::generate_pkcs8(&SystemRandom::new()).unwrap();
@@ -119,6 +120,7 @@ async fn main() {
         "history" => history::run(sc).await,
         "canon" => misc::canon(sc),
         "target_stream" => targets::op_target_stream(sc).await,
+        "http_script" => httpx::op_http_script(sc).await,
         _ => json!({"error": format!("unknown op {op}")}),
     };
     println!("{}", out);
